@@ -169,7 +169,6 @@ func (e *Enc) invoke(fr *Frame, st *State, cc *ssa.CallCommon, recv *Val, args [
 		if tn == "ILogger" {
 			if name == "Panicf" {
 				st.reach = "false"
-				st.pend = nil
 				return e.zero(rt)
 			}
 			return e.zero(rt)
@@ -233,12 +232,11 @@ func (e *Enc) modularCall(fr *Frame, st *State, c *FuncContract, names []string,
 	old := st.clone()
 	env := &SpecEnv{e: e, cur: st, old: old, vars: vars, pkg: c.Pkg, fr: nil}
 	for _, cl := range c.Requires {
-		g := e.evalBool(cl.E, env)
 		if cl.Free {
-			e.assume(st, g)
+			e.specAssume(st, cl.E, env)
 			continue
 		}
-		e.oblige(st, "pre@call:"+cname, g, "precondition of "+calleeName+": "+cl.Src, cl.Props)
+		e.specOblige(st, "pre@call:"+cname, cl.E, env, "precondition of "+calleeName+": "+cl.Src, cl.Props)
 	}
 	e.flush(st)
 	old = st.clone()
@@ -252,9 +250,40 @@ func (e *Enc) modularCall(fr *Frame, st *State, c *FuncContract, names []string,
 	e.assume(st, e.wf(res, st.alloc))
 	e.bindResults(vars, res, sig)
 	env2 := &SpecEnv{e: e, cur: st, old: old, vars: vars, pkg: c.Pkg}
+	// components the postcondition reads in the new state get a fresh version above the old
+	// allocation frontier (the callee may have initialised objects it allocated); below the
+	// frontier they are unchanged unless listed in modifies. Using a distinct array symbol
+	// keeps "new contents = old contents shifted" facts free of matching loops.
+	if len(c.Ensures) > 0 {
+		e.rec = map[string]bool{}
+		e.recState = st
+		for _, cl := range c.Ensures {
+			e.evalBool(cl.E, env2)
+		}
+		e.recState = nil
+		var names []string
+		for n := range e.rec {
+			names = append(names, n)
+		}
+		e.rec = nil
+		sort.Strings(names)
+		for _, n := range names {
+			srt := e.compSort[n]
+			if !strings.HasPrefix(srt, "(Array Int ") || strings.HasPrefix(n, "GV:") || strings.HasPrefix(n, "L:") {
+				continue
+			}
+			cur := e.comp(st, n, srt)
+			if cur != e.comp(old, n, srt) {
+				continue // already given a new version by modifies
+			}
+			nw := e.s.Fresh("h."+n, srt)
+			e.s.AddFact(nw, fmt.Sprintf("(forall ((a!c Int)) (! (=> (< a!c %s) (= (select %s a!c) (select %s a!c))) :pattern ((select %s a!c))))",
+				old.alloc, nw, cur, nw))
+			st.heap[n] = nw
+		}
+	}
 	for _, cl := range c.Ensures {
-		g := e.evalBool(cl.E, env2)
-		e.assume(st, g)
+		e.specAssume(st, cl.E, env2)
 	}
 	e.flush(st)
 	return res
@@ -442,7 +471,7 @@ func (e *Enc) builtin(fr *Frame, st *State, b *ssa.Builtin, cc *ssa.CallCommon, 
 		et := elemType(cc.Args[0].Type())
 		k := sizeOf(et)
 		n := e.s.FreshDef("copyn", "Int", fmt.Sprintf("(ite (< %s %s) %s %s)", dst.S[1], src.S[1], dst.S[1], src.S[1]))
-		e.rangeCopy(st, et, dst.S[0], src.S[0], fmt.Sprintf("(* %d %s)", k, n), "true")
+		e.rangeCopy(st, et, dst.S[0], src.S[0], mulK(k, n), "true")
 		return intVal(rt, n)
 	case "delete":
 		mt := cc.Args[0].Type().Underlying().(*types.Map)
@@ -507,17 +536,17 @@ func (e *Enc) appendBuiltin(st *State, cc *ssa.CallCommon, args []*Val, rt types
 	newCap := e.s.Fresh("app.cap", "Int")
 	e.assume(st, fmt.Sprintf("(and (>= %s %s) (<= %s %s))", newCap, newLen, newCap, pow2(62)))
 	e.assume(st, fmt.Sprintf("(<= %s %s)", newLen, pow2(61)))
-	st.alloc = e.s.FreshDef("alloc", "Int", ite(fits, st.alloc, fmt.Sprintf("(+ %s (* %d %s) 1)", st.alloc, k, newCap)))
+	st.alloc = e.s.FreshDef("alloc", "Int", ite(fits, st.alloc, fmt.Sprintf("(+ %s %s 1)", st.alloc, mulK(k, newCap))))
 	ptr := e.s.FreshDef("app.ptr", "Int", ite(fits, s.S[0], freshPtr))
 	cp := e.s.FreshDef("app.capr", "Int", ite(fits, s.S[2], newCap))
 	// copy old contents when reallocating
-	e.rangeCopy(st, et, freshPtr, s.S[0], fmt.Sprintf("(* %d %s)", k, s.S[1]), not(fits))
+	e.rangeCopy(st, et, freshPtr, s.S[0], mulK(k, s.S[1]), not(fits))
 	// copy appended elements
-	dst := fmt.Sprintf("(+ %s (* %d %s))", ptr, k, s.S[1])
+	dst := elemAddr(ptr, k, s.S[1])
 	if srcPtr != "" {
-		e.rangeCopy(st, et, dst, srcPtr, fmt.Sprintf("(* %d %s)", k, addLen), "true")
+		e.rangeCopy(st, et, dst, srcPtr, mulK(k, addLen), "true")
 	} else {
-		e.havocRange(st, et, dst, fmt.Sprintf("(* %d %s)", k, addLen))
+		e.havocRange(st, et, dst, mulK(k, addLen))
 	}
 	return &Val{T: rt, K: KSlice, S: []string{ptr, newLen, cp}}
 }
@@ -606,23 +635,27 @@ func (e *Enc) lockOp(st *State, m string, v string, acquire bool) *Val {
 
 // ---------- syntactic write sets of calls (for loop havoc) ----------
 
-func (e *Enc) callWriteSet(fr *Frame, cc *ssa.CallCommon, ws map[string]string, allocs *bool, all *bool, depth int) {
-	addLeaves := func(t types.Type, ctx string) {
+func (e *Enc) callWriteSet(fr *Frame, li *loopInfo, st *State, cc *ssa.CallCommon, ws WS, allocs *bool, all *bool, depth int) {
+	addLeaves := func(t types.Type, ctx string, fresh bool) {
 		var lvs []leaf
 		e.memLeaves(t, ctx, &lvs)
 		for _, lf := range lvs {
-			ws[lf.suffix] = lf.sort
+			if fresh {
+				ws.rng(lf.suffix, lf.sort, "fresh", "")
+			} else {
+				ws.whole(lf.suffix, lf.sort)
+			}
 		}
 	}
 	if b, ok := cc.Value.(*ssa.Builtin); ok {
 		switch b.Name() {
 		case "append":
 			*allocs = true
-			addLeaves(elemType(cc.Args[0].Type()), "")
+			addLeaves(elemType(cc.Args[0].Type()), "", false)
 		case "copy":
-			addLeaves(elemType(cc.Args[0].Type()), "")
+			addLeaves(elemType(cc.Args[0].Type()), "", false)
 		case "delete":
-			e.mapWriteSet(cc.Args[0].Type().Underlying().(*types.Map), ws)
+			e.mapWriteSet(cc.Args[0].Type().Underlying().(*types.Map), ws, false)
 		}
 		return
 	}
@@ -675,10 +708,10 @@ func (e *Enc) callWriteSet(fr *Frame, cc *ssa.CallCommon, ws map[string]string, 
 	full := callee.String()
 	switch {
 	case strings.HasPrefix(full, "(*sync.Mutex)."), strings.HasPrefix(full, "(*sync.RWMutex)."):
-		ws["L:held"] = "(Array Int Int)"
+		ws.whole("L:held", "(Array Int Int)")
 		return
 	case strings.HasPrefix(full, "sync/atomic.Store"), strings.HasPrefix(full, "sync/atomic.Add"), strings.HasPrefix(full, "sync/atomic.CompareAndSwap"):
-		addLeaves(derefType(cc.Args[0].Type()), e.staticComp(cc.Args[0]))
+		addLeaves(derefType(cc.Args[0].Type()), e.staticComp(cc.Args[0]), false)
 		return
 	case strings.HasPrefix(full, "sync/atomic.Load"):
 		return
@@ -707,7 +740,7 @@ func (e *Enc) callWriteSet(fr *Frame, cc *ssa.CallCommon, ws map[string]string, 
 		}
 		for _, b := range callee.Blocks {
 			for _, in := range b.Instrs {
-				e.writeSet(fr, in, ws, allocs, all, depth+1)
+				e.writeSet(fr, li, st, in, ws, allocs, all, depth+1)
 			}
 		}
 		return
@@ -718,7 +751,7 @@ func (e *Enc) callWriteSet(fr *Frame, cc *ssa.CallCommon, ws map[string]string, 
 	*all = true
 }
 
-func (e *Enc) contractWriteSet(c *FuncContract, names []string, tys []types.Type, ws map[string]string, all *bool) {
+func (e *Enc) contractWriteSet(c *FuncContract, names []string, tys []types.Type, ws WS, all *bool) {
 	if len(c.Modifies) == 0 {
 		return
 	}
@@ -731,6 +764,6 @@ func (e *Enc) contractWriteSet(c *FuncContract, names []string, tys []types.Type
 	scratch := &State{reach: "true", heap: map[string]string{}, alloc: "0"}
 	env := &SpecEnv{e: e, cur: scratch, old: scratch, vars: vars, pkg: c.Pkg}
 	for _, t := range e.modTargets(c, env) {
-		ws[t.comp] = t.sort
+		ws.whole(t.comp, t.sort)
 	}
 }
